@@ -431,6 +431,7 @@ pub mod verif_hooks {
     pub use super::reload::{IpReload, analyze_ip_reload, analyze_ip_reload_text};
     pub use super::uplink::{
         ConnIo, ConnIoMap, ConnectionId, ReaderHandle, UplinkPacket, create_uplink_channel,
+        spawn_reader,
     };
     pub use super::uplink_recv::process_uplink_packet;
 
